@@ -232,6 +232,8 @@ def make_archive(spec, seed, sibling=False):
             g = np.linspace(-1.5, 1.5, 4)
             cent = np.array([[a, b] for a in g for b in g][:12])
             return CVTArchive(solution_dim=D, cells=12, ranges=rng2, seed=s, custom_centroids=cent, **kw)
+        if m == "kmeans" and spec.get("kmkw") is not None:
+            kw["k_means_kwargs"] = copy.deepcopy(spec["kmkw"])  # user options; random_state stays the default
         return CVTArchive(solution_dim=D, cells=12, ranges=rng2, seed=s, centroid_method=m, samples=160, **kw)
     if kind == "sliding":
         return SlidingBoundariesArchive(solution_dim=D, dims=[5, 5], ranges=rng2, seed=s, remap_frequency=9,
@@ -883,6 +885,8 @@ def archive_spec(rng, kind=None, method=None, sk=None):
     if kind == "cvt":
         spec["method"] = method
         spec["kd"] = rng.random() < 0.7
+        if method == "kmeans":
+            spec["kmkw"] = rng.choice([None, {"max_iter": 20, "tol": 1e-5}, {"n_init": 2}])
     elif kind == "grid":
         spec["lr"] = rng.choice([None, None, 0.5])
     elif kind == "proximity":
@@ -1103,8 +1107,8 @@ def signature(case, fail):
     if "global random state disturbed" in label:
         return (label,)
     if "es_kwargs dict was modified" in label:
-        return ("es_kwargs modified", tuple(sorted({e.get("es", "") for e in case["emitters"]
-                                                    if e.get("eskw") is not None})))
+        raw = fail.what.split(" :: ")[0]
+        return ("es_kwargs modified", raw.split("): ")[-1].split(" -- ")[0])  # the entries that were written
     if "ONE shared es_kwargs dict" in label:
         return ("shared es_kwargs", tuple(sorted({e.get("es", "") for e in case["emitters"]
                                                   if e.get("eskw") is not None})))
